@@ -30,18 +30,19 @@ func (k OpKind) String() string { return kindNames[k] }
 type Fault int
 
 const (
-	OK            Fault = iota
-	FailErr             // returns ErrInjected, transfers nothing
-	FailTimeout         // returns a net.Error with Timeout()==true, transfers nothing
-	FailShort           // Write: transfers half (at least 0) and returns ErrInjected
-	FailShortZero       // Write: transfers 0 bytes and returns ErrInjected (distinct from FailErr only in intent)
-	FailEOF             // Read: returns (0, io.EOF)
-	FailDataEOF         // Read: returns the data together with io.EOF
-	FailDataErr         // Read: returns the data together with ErrInjected
+	OK               Fault = iota
+	FailErr                // returns ErrInjected, transfers nothing
+	FailTimeout            // returns a net.Error with Timeout()==true, transfers nothing
+	FailShort              // Write: transfers half (at least 0) and returns ErrInjected
+	FailShortZero          // Write: transfers 0 bytes and returns ErrInjected (distinct from FailErr only in intent)
+	FailEOF                // Read: returns (0, io.EOF)
+	FailDataEOF            // Read: returns the data together with io.EOF
+	FailDataErr            // Read: returns the data together with ErrInjected
+	FailShortTimeout       // Write: transfers half and returns a timeout error (deadline hit mid-frame)
 )
 
 func (f Fault) String() string {
-	return [...]string{"ok", "err", "timeout", "short", "short0", "eof", "data+eof", "data+err"}[f]
+	return [...]string{"ok", "err", "timeout", "short", "short0", "eof", "data+eof", "data+err", "short+timeout"}[f]
 }
 
 // ErrInjected is the injected non-timeout error.
@@ -259,6 +260,8 @@ func (c *Conn) Write(p []byte) (int, error) {
 		n, err = 0, ErrTimeout
 	case FailShort:
 		n, err = len(p)/2, ErrInjected
+	case FailShortTimeout:
+		n, err = len(p)/2, ErrTimeout
 	}
 	if err != nil {
 		c.Failed = true
